@@ -5,7 +5,7 @@ import random
 from . import core, fam, scen, simnet, ref6455
 
 E = ref6455.encode_frame
-MECHS = ["break", "raise", "close", "with"]
+MECHS = ["break", "raise", "close", "with", "rebind"]
 
 
 def bases(rnd, n):
@@ -29,6 +29,12 @@ def bases(rnd, n):
         ("client-closing-protocol-error", [("data", 10, scen.HANDSHAKE), ("timeout", 5120), ("data", 10, E(3, b""))], dict(_app={2: [("close", 1001, b"")]})),
         ("server-close-echoed-then-polls", [("data", 10, scen.HANDSHAKE + E(8, ref6455.close_payload(1000, b"")))] + [("timeout", 5120)] * 3, {}),
         ("closed-at-connected", [("data", 10, scen.HANDSHAKE)] + [("timeout", 5120)] * 2, dict(_app={1: [("close", 1000, b"")]})),
+        # the client's own Close cannot be written (the connection is already broken): close() swallows the error
+        ("client-close-write-fails", [("data", 10, scen.HANDSHAKE)] + [("timeout", 5120)] * 3, dict(_wf=["ok", "oserr"], _app={2: [("close", 1000, b"bye")]})),
+        ("client-close-write-explodes", [("data", 10, scen.HANDSHAKE + E(1, b"m"))] + [("timeout", 5120)] * 2, dict(_wf=["ok", "exc"], _app={3: [("close", 1001, b"")]})),
+        ("echo-write-fails", [("data", 10, scen.HANDSHAKE + E(8, ref6455.close_payload(1000, b"")))] + [("timeout", 5120)] * 2, dict(_wf=["ok", "oserr"])),
+        ("text-write-fails-then-close", [("data", 10, scen.HANDSHAKE)] + [("timeout", 5120)] * 3,
+         dict(_wf=["ok", "oserr", "oserr"], _app={2: [("text", b"x", False)], 3: [("close", 1000, b"")]})),
         # the upgrade request cannot be written
         ("request-write-fails", [("data", 10, scen.HANDSHAKE)], dict(_wf=["oserr"])),
     ]
@@ -92,9 +98,18 @@ def run(rep, info, model, tier, seed):
     for sc in scs:
         rep.count("mechanism", sc["_mech"])
         rep.count("abandoned_at_event_code", sc["_evname"])
-    fam.run_family(rep, model, "C13:abandon-at-every-event", scs, oracle, project=lambda t: t,
-                   rule="for each base scenario (handshake, messages, housekeeping Polls in silence, Unresponsive, server close, rejection, protocol error, EOF, failed library writes, a failed request write, and the same while a closing handshake started by either side is under way): abandonment at EVERY event index by break / exception in the handler / generator.close() / exception leaving `with ws:`; afterwards gc.collect(); the simulated socket and selector must have been closed")
-    rep.exhaustive["every event index x 4 mechanisms for each base scenario"] = True
+    def _release_order(t):
+        # when the WebSocket was reconnected before the old iterator is released, the selector is closed before the socket
+        # (feed's GeneratorExit handler reaches the new session): the order of the two releases is not part of the property
+        out = list(t)
+        for i in range(len(out) - 1):
+            if out[i] == [6] and out[i + 1] == [5]:
+                out[i], out[i + 1] = out[i + 1], out[i]
+        return out
+
+    fam.run_family(rep, model, "C13:abandon-at-every-event", scs, oracle, project=_release_order,
+                   rule="for each base scenario (handshake, messages, housekeeping Polls in silence, Unresponsive, server close, rejection, protocol error, EOF, failed library writes, a failed request write, a failed write of the client's own Close or of the echo, and the same while a closing handshake started by either side is under way): abandonment at EVERY event index by break / exception in the handler / generator.close() / exception leaving `with ws:` / reconnecting the same WebSocket before the old iterator is released; afterwards gc.collect(); the simulated socket and selector must have been closed")
+    rep.exhaustive["every event index x 5 mechanisms for each base scenario"] = True
     if not proof_ok and not rep.violations:
         rep.broken("proof obligation props/C13.v no longer checks: %s" % (rep.coq_failure,))
 
